@@ -127,6 +127,68 @@ def run(ctx):
     ctx.extra["borrowed_buffer_calls"] = H.borrowed_cases(ctx, bjudge, quick_subset=ctx.quick)
     # ... and when a mismatch warning is turned into an exception by the caller's warning filter
     ctx.extra["warnings_as_errors_calls"] = H.warnings_as_errors_cases(ctx, lambda info, w, before, o, after, sb, sa: bjudge(info, w, before, o, after))
+    # timestamps delivered in every kind of Sequence (list, tuple, DateTimeArray, a user Sequence) with steps INSIDE one second, of every
+    # size (more and less than half a second, one tick), ties, and a carry into the next second: the waveform either holds one monotonic
+    # timestamp per sample or the construction / assignment / append was refused
+    import itertools as _it
+    from collections.abc import Sequence as _Seq
+    import nitypes.bintime as _bt
+    from nitypes.waveform import AnalogWaveform as _AW2, DigitalWaveform as _DW2, Timing as _T2
+
+    class _MySeq(_Seq):
+        def __init__(self, xs): self._xs = list(xs)
+        def __len__(self): return len(self._xs)
+        def __getitem__(self, i): return self._xs[i]
+    base_ = _bt.DateTime(2025, 1, 1, tzinfo=dt.timezone.utc)
+    fr = [0, 1, (1 << 64) // 10, (1 << 63) - 1, 1 << 63, (1 << 63) + 1, 9 * ((1 << 64) // 10), (1 << 64) - 1, (1 << 64) + (1 << 62)]
+    n_sub = 0
+    for combo in _it.permutations(range(len(fr)), 3):
+        if (combo[0] * 7 + combo[1] * 3 + combo[2]) % (5 if ctx.quick else 1):
+            continue
+        for extra_tie in (False, True):
+            ticks_ = [fr[i] for i in combo] + ([fr[combo[2]]] if extra_tie else [])
+            mono = all(a <= b for a, b in zip(ticks_, ticks_[1:])) or all(a >= b for a, b in zip(ticks_, ticks_[1:]))
+            stamps_ = [base_ + _bt.TimeDelta.from_ticks(t) for t in ticks_]
+            for cname, cont in (("list", list(stamps_)), ("tuple", tuple(stamps_)), ("DateTimeArray", _bt.DateTimeArray(stamps_)), ("Sequence", _MySeq(stamps_))):
+                for route in ("create", "ctor", "waveform", "setter", "append"):
+                    n_sub += 1
+                    if route == "create":
+                        o = outcome(lambda: _T2.create_with_irregular_interval(cont))
+                        held = o[1]._timestamps if o[0] == "ok" else None
+                    elif route == "ctor":
+                        o = outcome(lambda: _T2(SampleIntervalMode.IRREGULAR, timestamps=cont))
+                        held = o[1]._timestamps if o[0] == "ok" else None
+                    elif route == "waveform":
+                        o = outcome(lambda: _AW2(len(ticks_), np.float64, timing=_T2.create_with_irregular_interval(cont)))
+                        held = o[1].timing._timestamps if o[0] == "ok" else None
+                    elif route == "setter":
+                        w_ = _DW2(len(ticks_), 1)
+                        o = outcome(lambda: setattr(w_, "timing", _T2.create_with_irregular_interval(cont)))
+                        held = w_.timing._timestamps if o[0] == "ok" else None
+                    else:
+                        w_ = _AW2(0, np.float64, timing=_T2.create_with_irregular_interval([]))
+                        o = outcome(lambda: w_.append(np.zeros(len(ticks_)), cont))
+                        held = w_.timing._timestamps if o[0] == "ok" else None
+                    ctx.case(("sub-second", tuple(combo), extra_tie, cname, route))
+                    if o[0] == "ok":
+                        got_ = [x.ticks - base_.ticks for x in held]
+                        good = mono and got_ == ticks_
+                    else:
+                        good = (not mono) and o[1] in ("ValueError", "TimingMismatchError")
+                    if not good:
+                        ctx.violation(what="irregular timestamps with steps inside one second", container=cname, route=route, tick_offsets=str(ticks_), monotonic=mono,
+                                      observed=show(o)[:120] if o[0] != "ok" else f"accepted, holds {got_}", required="accepted unchanged" if mono else "ValueError")
+                        break
+                else:
+                    continue
+                break
+            else:
+                continue
+            break
+        else:
+            continue
+        break
+    ctx.extra["sub_second_sequences"] = n_sub
     ctx.extra["irregular_objects_with_get_timestamps"] = GT[0]
     for r in world.records:
         ctx.case(r["line"], nontrivial=not r.get("malformed"))
